@@ -404,7 +404,22 @@ impl Debugger {
         }
 
         // temporary breakpoints must be removed on every exit, including failures
-        let stop_reason = install_result.and_then(|_| self.continue_execution());
+        let stop_reason = install_result.and_then(|_| {
+            let start_cfa = self.current_cfa()?;
+            loop {
+                let reason = self.continue_execution()?;
+                // with recursion the same statements are reached by deeper activations of
+                // this function: a temporary breakpoint counts only at or above the start frame
+                if let StopReason::Breakpoint(pid, addr) = reason
+                    && pid == current_location.pid
+                    && to_delete.contains(&addr)
+                    && self.current_cfa()? < start_cfa
+                {
+                    continue;
+                }
+                break Ok(reason);
+            }
+        });
 
         to_delete
             .into_iter()
